@@ -74,6 +74,12 @@ class Cat:
         return hash(repr(self))
 
 
+class AbsFile:
+    """Abstract file handle: writes append to the evaluator's per-path content list; mode 'w' truncated it at open."""
+    def __init__(self, key, mode):
+        self.key, self.mode = key, mode
+
+
 class Raised(Exception):
     def __init__(self, exc):
         self.exc = exc
@@ -109,6 +115,10 @@ class Evaluator:
         self.effects = []
         self._yields = []
         self.unknown_attrs = set()
+        self.visited = set()         # functions entered by the evaluation
+        self.files = {}              # abstract file system: frozen path -> list of written values
+        self.opens = []              # (frozen path, mode) in order
+        self.int_override = {}       # constant -> constant (buffer thresholds scaled down for protocol tables)
 
     # ------------------------------------------------------------------ driver
     def outcomes(self, func, args, selfenv=None):
@@ -123,6 +133,7 @@ class Evaluator:
             self._taken = []
             self.effects = []
             self._yields = []
+            self.files, self.opens = {}, []
             a_copy, s_copy = copy.deepcopy(dict(args)), copy.deepcopy(dict(selfenv or {}))
             try:
                 v = self.call(func, a_copy, s_copy, 0)
@@ -152,6 +163,7 @@ class Evaluator:
     def call(self, func, args, selfenv, depth):
         if depth > self.max_depth:
             raise AnalysisError("abstract evaluation too deep at " + func.qual)
+        self.visited.add(func.qual)
         env = dict(selfenv)
         params = func.bound_params
         for p in params:
@@ -206,6 +218,9 @@ class Evaluator:
         elif isinstance(st, ast.AugAssign):
             cur = self.expr(st.target, env, f, depth)
             v = self.expr(st.value, env, f, depth)
+            if isinstance(st.op, ast.Add) and type(cur) is list and isinstance(v, (list, tuple)):
+                cur.extend(v)          # in place, like Python: aliases of the list see the new elements
+                return
             self.assign(st.target, self.binop(st.op, cur, v, st), env, f)
         elif isinstance(st, ast.For):
             it = self.expr(st.iter, env, f, depth)
@@ -231,6 +246,12 @@ class Evaluator:
             raise _Continue()
         elif isinstance(st, ast.Pass):
             pass
+        elif isinstance(st, ast.With):
+            for it in st.items:
+                v = self.expr(it.context_expr, env, f, depth)
+                if it.optional_vars is not None:
+                    self.assign(it.optional_vars, v, env, f)
+            self.block(st.body, env, f, depth)
         else:
             raise AnalysisError("statement %s not supported by the table extractor (%s)" % (type(st).__name__, f.loc(st)))
 
@@ -268,6 +289,8 @@ class Evaluator:
 
     def expr(self, e, env, f, depth):
         if isinstance(e, ast.Constant):
+            if type(e.value) is int and e.value in self.int_override:
+                return self.int_override[e.value]
             return e.value
         if isinstance(e, ast.Name):
             if e.id in env:
@@ -275,7 +298,8 @@ class Evaluator:
             if e.id in ("int", "str", "float", "bool", "list", "dict", "tuple", "set") and self.ctx.p.resolve_name(f.module, e.id) is None:
                 return {"int": int, "str": str, "float": float, "bool": bool, "list": list, "dict": dict, "tuple": tuple, "set": set}[e.id]
             try:
-                return self.ctx.p.fold(f.module, e)
+                v = self.ctx.p.fold(f.module, e)
+                return self.int_override.get(v, v) if type(v) is int else v
             except Unfoldable:
                 raise AnalysisError("name %s is not bound for the table extractor (%s)" % (e.id, f.loc(e)))
         if isinstance(e, ast.Attribute):
@@ -428,10 +452,14 @@ class Evaluator:
 
     def binop(self, op, a, b, site):
         if isinstance(op, ast.Add):
-            if isinstance(a, (str, Cat)) and isinstance(b, (str, Cat, Sym)) or isinstance(b, (str, Cat)) and isinstance(a, (Cat, Sym)):
+            if isinstance(a, (str, Cat, Distinct)) and isinstance(b, (str, Cat, Sym, Distinct)) \
+                    or isinstance(b, (str, Cat, Distinct)) and isinstance(a, (Cat, Sym, Distinct)):
                 parts = []
                 for x in (a, b):
                     parts.extend(x.parts if isinstance(x, Cat) else [x])
+                parts = [x for x in parts if x != ""]
+                if not parts:
+                    return ""
                 merged = []
                 for x in parts:
                     if isinstance(x, str) and merged and isinstance(merged[-1], str):
@@ -446,6 +474,8 @@ class Evaluator:
         if isinstance(op, ast.Sub) and isinstance(a, (int, float)) and isinstance(b, (int, float)):
             return a - b
         if isinstance(op, ast.Mult) and isinstance(a, (int, float)) and isinstance(b, (int, float)):
+            return a * b
+        if isinstance(op, ast.Mult) and isinstance(a, str) and type(b) is int or isinstance(b, str) and type(a) is int:
             return a * b
         return Opaque("arith")
 
@@ -465,6 +495,19 @@ class Evaluator:
                 return any(vals) if fn.id == "any" else all(vals)
             if fn.id == "range" and args and all(isinstance(a, int) for a in args):
                 return list(range(*args))
+            if fn.id == "enumerate" and len(args) == 1 and isinstance(args[0], (list, tuple)):
+                return [(i, x) for i, x in enumerate(args[0])]
+            if fn.id == "open" and args and self.ctx.p.resolve_name(f.module, "open") is None:
+                mode = args[1] if len(args) > 1 else kws.get("mode", "r")
+                if not isinstance(mode, str):
+                    raise AnalysisError("open() with a non-constant mode (%s)" % f.loc(e))
+                key = freeze(args[0])
+                self.opens.append((key, mode, f.loc(e)))
+                if mode.startswith("w"):
+                    self.files[key] = []
+                else:
+                    self.files.setdefault(key, [])
+                return AbsFile(key, mode)
             if fn.id in ("list", "tuple") and args and isinstance(args[0], (list, tuple)):
                 return list(args[0]) if fn.id == "list" else tuple(args[0])
             if fn.id == "str" and args:
@@ -485,6 +528,36 @@ class Evaluator:
                 return self.decide(e)
         if isinstance(fn, ast.Attribute):
             recv_name = fn.value.id if isinstance(fn.value, ast.Name) else ast.unparse(fn.value)
+            if isinstance(env.get(recv_name), AbsFile):
+                fh = env[recv_name]
+                if fn.attr == "write" and len(args) == 1:
+                    if not fh.mode.startswith(("w", "a")):
+                        raise Raised("io.UnsupportedOperation")
+                    self.files[fh.key].append(args[0])
+                    return None
+                if fn.attr == "writelines" and len(args) == 1 and isinstance(args[0], (list, tuple)):
+                    self.files[fh.key].extend(args[0])
+                    return None
+                if fn.attr in ("close", "flush"):
+                    return None
+                raise AnalysisError("file operation %s not modelled (%s)" % (fn.attr, f.loc(e)))
+            if fn.attr == "from_iterable" and len(args) == 1 and isinstance(args[0], (list, tuple)) \
+                    and all(isinstance(x, (list, tuple)) for x in args[0]):
+                return [y for x in args[0] for y in x]          # itertools.chain.from_iterable over concrete sequences
+            if fn.attr == "join" and len(args) == 1 and isinstance(args[0], (list, tuple)) and not kws:
+                sep = self.expr(fn.value, env, f, depth)
+                if isinstance(sep, str) and all(isinstance(x, (str, Cat, Distinct)) for x in args[0]):
+                    acc = ""
+                    for i, x in enumerate(args[0]):
+                        if i and sep:
+                            acc = self.binop(ast.Add(), acc, sep, e)
+                        acc = self.binop(ast.Add(), acc, x, e)
+                    return acc
+            if recv_name in env and type(env[recv_name]) is list and fn.attr in ("clear", "copy") and not args:
+                if fn.attr == "clear":
+                    del env[recv_name][:]
+                    return None
+                return list(env[recv_name])
             if recv_name in env and isinstance(env[recv_name], dict) and (fn.attr + "()") in env[recv_name]:
                 v = env[recv_name][fn.attr + "()"]
                 if fn.attr in self.watch:
